@@ -332,6 +332,8 @@ def scan_trusted(unit_path, report):
 
 
 def write_evidence(prop, ev):
+    if os.environ.get("VERIF_REPO"):
+        return  # scratch-copy runs (bin/mut) never overwrite the evidence of /repo
     os.makedirs(os.path.join(VERIF, "evidence"), exist_ok=True)
     json.dump(ev, open(os.path.join(VERIF, "evidence", prop + ".json"), "w"), indent=1)
 
